@@ -15,12 +15,23 @@ fn exclude(p: &Node) -> Option<&'static str> {
 pub fn run(ctx: &Ctx) -> Outcome {
     let sp = spaces::c01_space(ctx.tier, ctx.seed, true, 4, 4, 2, 3, 3_000, 40_000);
     let texts = spaces::texts_c01(ctx.tier.pick(3, 4));
-    let cfg = DiffCfg { prop: "C15", compare: Compare::All, entry_points: false, ref_budget: crate::refm::BUDGET, step_cap: Some(2_000_000), exclude: &exclude, static_known: &diff::no_static_known };
+    let cfg = DiffCfg { prop: "C15", compare: Compare::All, entry_points: false, ref_budget: crate::refm::BUDGET, step_cap: Some(2_000_000), exclude: &exclude, static_known: &diff::no_static_known, style: None };
     let mut acc = diff::run(ctx, &cfg, &sp.patterns, &texts);
+    // the named spellings `(?(<name>)yes|no)` / `(?('name')..)` with `\k<name>` references: the
+    // same trees printed with every group named, smaller trees only
+    let named_a = crate::ast::Style { group: crate::ast::GroupStyle::Angle, backref: crate::ast::RefStyle::KAngle, ..Default::default() };
+    let named_q = crate::ast::Style { group: crate::ast::GroupStyle::PName, backref: crate::ast::RefStyle::KQuote, ..Default::default() };
+    let small: Vec<Node> = sp.patterns.iter().filter(|p| p.size() <= ctx.tier.pick(4, 5) && p.n_groups() > 0).cloned().collect();
+    for st in [&named_a, &named_q] {
+        let cfg_n = DiffCfg { style: Some(st), ..DiffCfg { prop: "C15", compare: Compare::All, entry_points: false, ref_budget: crate::refm::BUDGET, step_cap: Some(2_000_000), exclude: &exclude, static_known: &diff::no_static_known, style: None } };
+        let a2 = diff::run(ctx, &cfg_n, &small, &texts);
+        acc.add("named-spelling-evaluations", a2.evals);
+        acc.merge(a2);
+    }
     diff::run_witnesses(ctx, "C15", "FJ", &mut acc);
     let mut out = Outcome::new(acc);
     out.distinct_nontrivial = out.acc.distinct;
-    out.rule = format!("patterns containing a conditional from: {}; all texts over {{a,b,c,é,\\n,-}} up to length {}, every offset; span and all groups compared with the reference; EndAtomic/BeginAtomic pairing watched on the auxiliary stack (a disagreement is attributed to finding FJ only in a run where an EndAtomic consumed a foreign entry). Non-trivial: a conditional pattern that matched one case and failed another.", sp.describe, ctx.tier.pick(3, 4));
+    out.rule = format!("patterns containing a conditional from: {}; all texts over {{a,b,c,é,\\n,-}} up to length {}, every offset, plus the trees of <= 4 (thorough 5) nodes spelled with named groups, `(?(<name>)..)` / `(?('name')..)` conditions and `\\k<name>` references; span and all groups compared with the reference; EndAtomic/BeginAtomic pairing watched on the auxiliary stack (a disagreement is attributed to finding FJ only in a run where an EndAtomic consumed a foreign entry). Non-trivial: a conditional pattern that matched one case and failed another.", sp.describe, ctx.tier.pick(3, 4));
     out.assumptions = vec!["reference rule 6: (?(N)..) tests whether group N has a span; (?(cond)yes|no) commits to cond".into()];
     out.extra = json!({"runs_with_aux_mismatch": out.acc.get("runs-with-aux-mismatch")});
     let ok = out.acc.hook.cuts > 0 || !HOOKS;
